@@ -2093,6 +2093,8 @@ func (w *World) diagnosticBlocks(fn *ssa.Function) []*ssa.BasicBlock {
 			}
 		}
 	}
+	// ... or puts there a message into a list (a result, or a member of a result record) of which every caller reports every element
+	out = append(out, w.problemBlocks(fn)...)
 	return out
 }
 
